@@ -263,8 +263,14 @@ def run(c, prog, ctx):
             if a == b_ and not (r[0] == "ret" and r[1].startswith("std::iter::Iterator::all(zip(")):
                 badlen.append((a, b_, r))
     allret = [_sh(s_[1]) for cx, s_ in MP.flat if s_[0] == "ret" and "Iterator::all" in _sh(s_[1])]
-    MC = _Fn(prog, "address::match_prefix::{closure#0}")
-    cl = [_sh(s_[1]) for cx, s_ in MC.flat if s_[0] == "ret"]
+    # (a comparison written without the per-character closure is a different shape: reported below as a mismatch of the
+    # comparison, with whatever the function returns now, instead of stopping with "cannot decide")
+    if prog.has_fn("address::match_prefix::{closure#0}"):
+        MC = _Fn(prog, "address::match_prefix::{closure#0}")
+        cl = [_sh(s_[1]) for cx, s_ in MC.flat if s_[0] == "ret"]
+    else:
+        cl = ["<no per-character closure>"]
+        allret = allret or [_sh(s_[1]) for cx, s_ in MP.flat if s_[0] == "ret"]
     c.inst("R5.prefix-match-exact", "a string's HRP matches a network only if it has the same length and equals it character by character ignoring case",
            not badlen and allret == ["std::iter::Iterator::all(zip(bech32::Hrp::lowercase_char_iter(arg2), core::str::chars(arg1)), closure:address::match_prefix::{closure#0}{})"]
            and cl == ["(arg2.0 Eq std::char::methods::to_ascii_lowercase(arg2.1))"],
